@@ -133,3 +133,45 @@ Proof.
   rewrite !mapped_exists_tas, T1, T2. split; reflexivity.
 Qed.
 Print Assumptions boxed_nesting_map_lines.
+
+(* ------------------------------------------------------------------ *)
+(* empty neighbours, single child and an empty ReplaceSource through map() *)
+(* ------------------------------------------------------------------ *)
+Definition small_final_c (st : store) (s : src) (c : bool) : Prop :=
+  forallb mapping_small (chunk_mappings (fst (fst (stream st s (mkOpts c true))))) = true.
+
+Lemma C03_tree_any (st : store) (s : src) (c : bool) : good s -> small_final_c st s c ->
+  attr_of_map (fst (get_map st s c)) (source s) c = attr_of_stream (fst (fst (stream st s (mkOpts c false)))) c /\
+  is_none (fst (get_map st s c)) = negb (mapped_chunk_exists (fst (fst (stream st s (mkOpts c false))))).
+Proof.
+  intros [H1 [H2 H3]] Hs. destruct c; [apply C03_tree_cols|apply C03_tree_lines]; assumption.
+Qed.
+
+(* concatenating empty sources around `a` changes neither what get_map attributes nor whether it
+   returns a map (both column settings) *)
+Theorem empty_neighbours_map (st : store) (e a e' : src) (c : bool) :
+  empty_leaf e = true -> empty_leaf e' = true ->
+  good (SConcat [e; a; e']) -> good a ->
+  small_final_c st (SConcat [e; a; e']) c -> small_final_c st a c ->
+  source (SConcat [e; a; e']) = source a /\
+  attr_of_map (fst (get_map st (SConcat [e; a; e']) c)) (source a) c = attr_of_map (fst (get_map st a c)) (source a) c /\
+  is_none (fst (get_map st (SConcat [e; a; e']) c)) = is_none (fst (get_map st a c)).
+Proof.
+  intros He He' G Ga S Sa.
+  destruct (C03_tree_any st _ c G S) as [A N]. destruct (C03_tree_any st a c Ga Sa) as [Aa Na].
+  destruct Ga as [Ga1 [Ga2 _]].
+  pose proof (dense_all_any a Ga1 Ga2 st c) as Hd.
+  destruct (concat_empty_neighbours st e a e' c c He He' Hd) as [E1 [_ E3]].
+  destruct (concat_empty_neighbours_ta st e a e' c He He' Hd) as [T _].
+  unfold evs_of in E1, T. split; [exact E3|].
+  rewrite E3 in A. rewrite A, Aa, N, Na. split; [exact E1|].
+  rewrite !mapped_exists_tas, T. reflexivity.
+Qed.
+
+(* a single-child ConcatSource and a ReplaceSource without replacements delegate map() *)
+Theorem single_child_map (st : store) (a : src) (c : bool) :
+  get_map st (SConcat [a]) c = get_map st a c.
+Proof. unfold get_map. rewrite (concat_single_stream st a (mkOpts c true)). reflexivity. Qed.
+
+Print Assumptions empty_neighbours_map.
+Print Assumptions single_child_map.
